@@ -6,8 +6,15 @@
     c19 lower rules=<c>:<pat>;… tree=<tree> fuel=<n>       -> "L passes=<k> <tree>" | "FUEL"
         tree = preorder, comma separated `<class>/<arity>`;  pat = preorder of `N<class>/<arity>`, `K<i>`, `S<i>.<j>`
     c19 once  rules=… tree=…  fuel=<n>                     -> "T <tree>" | "FUEL"
+    c19 msr tree=<tr>                                       -> "M <potF> <flow> <potP> <potB> w=<w> fs=<fs>"
+        tr = preorder, comma separated `O<w>/<arity>` (operator), `P<w>` (Projection/Index), `F<w>` (Filter),
+        `B<w>` (Head/Tail/Partitions/Len/Lengths); w = number of columns   (DxModel/SimplifyMeasure.lean)
+    c19 step before=<tr> after=<tr>                         -> "STEP <rule>@<depth>|none DEC <0|1> NOOP <0|1>"
+        is the pair an instance of a rule shape (`stepB`), is `msr after < msr before` (`ltQ`), is it a redundant
+        insertion of non-narrowing Projections (`noopInsertB`)
 -/
 import DxModel.Termination
+import DxModel.SimplifyMeasure
 import Driver.Proto
 open Dx Dx.Proto
 namespace Dx.Drv.Term
@@ -84,6 +91,62 @@ def parseRules (s : String) : Option (List (Nat × Pat)) :=
 
 def stepOf (table : List Nat) (i : Nat) : Nat := table.getD i i
 
+/-- parse one measure tree from a preorder token list -/
+def parseTr : Nat → List String → Option (SM.Tr × List String)
+  | 0, _ => none
+  | _, [] => none
+  | fuel+1, tok :: rest =>
+    let body := (tok.drop 1).toString
+    if tok.startsWith "O" then
+      match body.splitOn "/" with
+      | [w, n] =>
+        match w.toNat?, n.toNat? with
+        | some w, some n =>
+          let rec kids (k : Nat) (rest : List String) (acc : List SM.Tr) : Option (List SM.Tr × List String) :=
+            match k with
+            | 0 => some (acc.reverse, rest)
+            | k'+1 =>
+              match parseTr fuel rest with
+              | some (t, rest') => kids k' rest' (t :: acc)
+              | none => none
+          match kids n rest [] with
+          | some (ks, rest') => some (.op w ks, rest')
+          | none => none
+        | _, _ => none
+      | _ => none
+    else
+      match body.toNat? with
+      | none => none
+      | some w =>
+        if tok.startsWith "P" then
+          match parseTr fuel rest with
+          | some (x, rest') => some (.proj w x, rest')
+          | none => none
+        else if tok.startsWith "B" then
+          match parseTr fuel rest with
+          | some (x, rest') => some (.blind w x, rest')
+          | none => none
+        else if tok.startsWith "F" then
+          match parseTr fuel rest with
+          | some (x, rest') =>
+            match parseTr fuel rest' with
+            | some (p, rest'') => some (.filt w x p, rest'')
+            | none => none
+          | none => none
+        else none
+
+def getTr (kv : List (String × String)) (k : String) : Option SM.Tr :=
+  match (get kv k).bind (fun s => parseTr 100000 (s.splitOn ",")) with
+  | some (t, []) => some t
+  | _ => none
+
+def ruleName : SM.Rule → String
+  | .narrow => "narrow" | .projThrough => "projThrough" | .projSink => "projSink" | .leafNarrow => "leafNarrow"
+  | .projFilterKeep => "projFilterKeep" | .projFilter => "projFilter" | .projSquash => "projSquash"
+  | .projId => "projId" | .opSquash => "opSquash" | .unwrap => "unwrap" | .filtPush => "filtPush"
+  | .filtSquash => "filtSquash" | .filtAbsorb => "filtAbsorb" | .blindPush => "blindPush"
+  | .blindProj => "blindProj" | .blindFilt => "blindFilt" | .blindSquash => "blindSquash" | .lenPass => "lenPass"
+
 def handle : List String → Option String
   | "c19" :: verb :: rest =>
     let kv := kvs rest
@@ -110,6 +173,22 @@ def handle : List String → Option String
         | some r => some s!"T {rTree r}"
         | none => some "FUEL"
       | _, _, _ => some "BAD params"
+    | "msr" =>
+      match getTr kv "tree" with
+      | some t =>
+        let m := SM.msr t
+        some s!"M {m.1} {m.2.1} {m.2.2.1} {m.2.2.2} w={t.w} fs={SM.fs t}"
+      | none => some "BAD tree"
+    | "step" =>
+      match getTr kv "before", getTr kv "after" with
+      | some a, some b =>
+        let why := if SM.stepB a b then
+            (match SM.stepWhy a b with
+              | some (r, d) => s!"{ruleName r}@{d}"
+              | none => "step")
+          else "none"
+        some s!"STEP {why} DEC {bool01 (SM.ltQ (SM.msr b) (SM.msr a))} NOOP {bool01 (SM.noopInsertB a b)}"
+      | _, _ => some "BAD tree"
     | _ => none
   | _ => none
 
